@@ -10,13 +10,14 @@ import (
 
 func init() {
 	register(&propDef{ID: "C13", Run: runC13,
-		Explain: "Structural necessary conditions of 'consume own Route entry only, keep or strip next hop as configured', decided on SSA/CFG/value flow of /repo: (1) consume-guard: the pop in tryRemoveTopRoute is guarded by both GetPort() of entry 0's SIP URI == receiving transport's port and isSameAddress(URI host, receiving transport's address); isSameAddress answers true only on string equality of its arguments or on equality of two successful resolutions of exactly those arguments through the configured resolver; (2) consume-once: at most one pop per tryRemoveTopRoute, exactly one tryRemoveTopRoute per raw message, applied to that message; (3) keep-flag: the pop in the Route-hop function is guarded by !keepNextHopRoute, executes exactly once when the flag is off, after the entry has been read; the flag's only configuration root is the YAML field keepNextHopRoute (plus the KEEP_NEXT_HOP_ROUTE environment default), reached without negation; (4) pop-structure: PopRoute removes one route-param when the first Route line holds >= 2 entries and the whole line otherwise, PopRouteParam is delete-first.",
+		Explain:    "Structural necessary conditions of 'consume own Route entry only, keep or strip next hop as configured', decided on SSA/CFG/value flow of /repo: (1) consume-guard: the pop in tryRemoveTopRoute is guarded by both GetPort() of entry 0's SIP URI == receiving transport's port and isSameAddress(URI host, receiving transport's address); isSameAddress answers true only on string equality of its arguments or on equality of two successful resolutions of exactly those arguments through the configured resolver; (2) consume-once: at most one pop per tryRemoveTopRoute, exactly one tryRemoveTopRoute per raw message, applied to that message; (3) keep-flag: the pop in the Route-hop function is guarded by !keepNextHopRoute, executes exactly once when the flag is off, after the entry has been read; the flag's only configuration root is the YAML field keepNextHopRoute (plus the KEEP_NEXT_HOP_ROUTE environment default), reached without negation; (4) pop-structure: PopRoute removes one route-param when the first Route line holds >= 2 entries and the whole line otherwise, PopRouteParam is delete-first.",
 		NotDecided: "alias resolution data; value-level re-encoding of the remaining entries (C14)."})
 }
 
 func runC13(c *Ctx) {
 	c13Consume(c)
 	c13SameAddress(c)
+	c13AliasTable(c)
 	c13KeepFlag(c)
 	checkPopOne(c, "pop-structure", routePop)
 }
@@ -204,6 +205,127 @@ func c13SameAddress(c *Ctx) {
 			}
 			c.check(good, rule, key, w.ipos(r), "equality of two successful resolutions", "isSameAddress returns "+w.termKey(v)+": expected ip1 == ip2 with both lookups successful (a failed lookup must mean 'different')")
 		}
+	}
+}
+
+// c13AliasTable: the alias table behind "a host ... or an alias that resolves to it": AddHostIP records name -> ip
+// unconditionally (a later registration of a name replaces the earlier one), GetIp answers from the table under the
+// unmodified name before asking DNS, and both configured host lists are registered on the resolver the proxy uses.
+func c13AliasTable(c *Ctx) {
+	w := c.w
+	rule := "consume-guard"
+	if f := c.fn(rule, "(*PreConfigHostResolver).AddHostIP"); f != nil {
+		var upd *ssa.MapUpdate
+		n := 0
+		eachInstr(f, func(in ssa.Instruction) {
+			if mu, ok := in.(*ssa.MapUpdate); ok {
+				if _, isT := isLoadOf(mu.Map, "PreConfigHostResolver.hostIPs"); isT {
+					upd = mu
+					n++
+				}
+			}
+		})
+		good := false
+		if upd != nil && n == 1 {
+			mn, mx, inf := countSites(entryPt(f), nil, isInstr(upd))
+			b, _ := isLoadOf(upd.Map, "PreConfigHostResolver.hostIPs")
+			good = mn == 1 && mx == 1 && !inf && isParam(f, upd.Key, 1) && isParam(f, upd.Value, 2) && isParam(f, b, 0)
+		}
+		c.check(good, rule, "AddHostIP/records-unconditionally", w.pos(f.Pos()), "hostIPs[name] = ip on every path", "AddHostIP does not record name -> ip unconditionally: an alias registered later (the service's own `hosts` entry) is ignored or altered, so an entry naming the listener by that alias is not recognised as the proxy's own - or a foreign one is")
+	}
+	if f := c.fn(rule, "(*PreConfigHostResolver).GetIp"); f != nil {
+		var lk *ssa.Lookup
+		eachInstr(f, func(in ssa.Instruction) {
+			if l, ok := in.(*ssa.Lookup); ok && l.CommaOk {
+				if _, isT := isLoadOf(l.X, "PreConfigHostResolver.hostIPs"); isT {
+					lk = l
+				}
+			}
+		})
+		good := false
+		if lk != nil && isParam(f, lk.Index, 1) {
+			okSel := func(a Atom) bool {
+				e, isE := a.X.(*ssa.Extract)
+				return a.Kind == "bool" && isE && e.Tuple == ssa.Value(lk) && e.Index == 1
+			}
+			isIP := func(a Atom) bool {
+				if a.Kind != "nil" {
+					return false
+				}
+				cc := w.resultOfCallTo(a.X, "net.ParseIP", 0)
+				return cc != nil
+			}
+			keep := w.under(assumeAtom(okSel, true), assumeAtom(isIP, true))
+			good = true
+			nr := 0
+			for _, r := range returnsUnder(f, keep) {
+				nr++
+				for _, v := range valuesUnder(f, r.Results[0], keep) {
+					e, isE := strip(v).(*ssa.Extract)
+					if !isE || e.Tuple != ssa.Value(lk) || e.Index != 0 {
+						good = false
+					}
+				}
+				if !allVals(valuesUnder(f, r.Results[1], keep), isNilConst) {
+					good = false
+				}
+			}
+			good = good && nr > 0
+			// the table is asked before DNS
+			for _, cs := range w.callsIn(f, "net.LookupIP", "net.LookupHost", "net.ResolveIPAddr") {
+				if !w.requires(f, cs.In, okSel, false) {
+					good = false
+				}
+			}
+		}
+		c.check(good, rule, "GetIp/table-first", w.pos(f.Pos()), "a configured alias resolves to its configured address", "GetIp does not answer a configured name (looked up unmodified) from the host table before anything else")
+	}
+	if f := c.fn(rule, "createPreConfigHostResolver"); f != nil {
+		res := 0
+		srcs := map[string]bool{}
+		for _, cs := range w.callsIn(f, "(*PreConfigHostResolver).AddHostIP") {
+			for _, rl := range rangeLoops(f) {
+				if !rl.inLoop(cs.In.Block()) {
+					continue
+				}
+				isF := func(v ssa.Value, name string) bool {
+					v = strip(v)
+					if fl, ok := v.(*ssa.Field); ok {
+						return rl.isElem(fl.X) && fieldName(fl.X.Type(), fl.Field) == name
+					}
+					if a, ok := isDeref(v); ok {
+						if fa, ok := a.(*ssa.FieldAddr); ok && fieldName(fa.X.Type(), fa.Field) == name {
+							if ia, ok := fa.X.(*ssa.IndexAddr); ok {
+								return ia.X == rl.Over && ia.Index == rl.Idx
+							}
+							if al, ok := fa.X.(*ssa.Alloc); ok {
+								for _, r := range *al.Referrers() {
+									if st, ok := r.(*ssa.Store); ok && st.Addr == ssa.Value(al) && rl.isElem(st.Val) {
+										return true
+									}
+								}
+							}
+						}
+					}
+					return false
+				}
+				if isF(callArg(cs.In, 0), "Name") && isF(callArg(cs.In, 1), "Ip") {
+					mn, mx, _ := countSites(blockStart(rl.Body), func(b *ssa.BasicBlock, i int) bool { return b.Succs[i] != rl.Header }, isInstr(cs.In))
+					if mn == 1 && mx == 1 {
+						res++
+						srcs[w.termKey(rl.Over)] = true
+					}
+				}
+			}
+		}
+		retOK := false
+		for _, r := range returnsUnder(f, nil) {
+			retOK = allVals(phiLeaves(r.Results[0]), func(v ssa.Value) bool {
+				cc, _ := callOfResult(v)
+				return cc != nil && w.calleeName(cc) == "NewPreConfigHostResolver"
+			})
+		}
+		c.check(res == 2 && len(srcs) == 2 && retOK, rule, "createPreConfigHostResolver/both-lists", w.pos(f.Pos()), "every global and every service host entry is registered as (Name, Ip)", fmt.Sprintf("the resolver handed to the proxy does not get every entry of both host lists registered as (Name, Ip) (%d complete registration loops over %d lists)", res, len(srcs)))
 	}
 }
 
